@@ -44,6 +44,8 @@ type FuncContract struct {
 	NoInlineCheck bool
 	ClausePropsReq map[int][]string
 	WaitInv []string
+	NoFrame bool
+	Like string // abstract contract of a func-typed field: parameter names/types taken from this function
 	LocksChange bool
 	ClausePropsEns map[int][]string
 }
@@ -68,11 +70,14 @@ type GuardDecl struct {
 	Lock   string // expression over "self"
 	Fields []string
 	Props  []string
+	Class  string
+	LockField string // field of the struct that holds (or points to) the lock; "" for *
 }
 
 type CondDecl struct {
 	Pkg   string
 	Name  string
+	Class string
 	Waits []string // Struct.field
 	Props []string
 }
@@ -132,7 +137,7 @@ func pkgPathOf(root, file string) string {
 var clauseKeywords = map[string]bool{
 	"props": true, "requires": true, "ensures": true, "modifies": true, "loop": true, "arith": true,
 	"nosafety": true, "role": true, "entry": true, "trusted": true, "witness": true, "lemma": true,
-	"exitlocks": true, "replay": true, "waitinv": true, "lockschange": true,
+	"exitlocks": true, "replay": true, "waitinv": true, "lockschange": true, "like": true, "noframe": true,
 }
 
 func (cs *Contracts) parseFile(root, file string) error {
@@ -291,6 +296,10 @@ func (cs *Contracts) parseFile(root, file string) error {
 			lastClause = &cur.WaitInv[len(cur.WaitInv)-1]
 		case "lockschange":
 			cur.LocksChange = true
+		case "like":
+			cur.Like = rest
+		case "noframe":
+			cur.NoFrame = true
 		}
 	}
 	return nil
@@ -361,7 +370,19 @@ func parseGuard(pkg, rest string) (*GuardDecl, error) {
 	if len(hd) < 3 || hd[1] != "guarded_by" {
 		return nil, fmt.Errorf("bad struct clause head")
 	}
-	g := &GuardDecl{Pkg: pkg, Struct: hd[0], Lock: strings.Join(hd[2:], " ")}
+	g := &GuardDecl{Pkg: pkg, Struct: hd[0], Class: hd[0]}
+	lockWords := hd[2:]
+	for i, w := range lockWords {
+		if w == "class" && i+1 < len(lockWords) {
+			g.Class = lockWords[i+1]
+			lockWords = lockWords[:i]
+			break
+		}
+	}
+	g.Lock = strings.Join(lockWords, " ")
+	if lf := strings.TrimPrefix(strings.TrimPrefix(g.Lock, "&"), "self."); lf != g.Lock && !strings.Contains(lf, ".") {
+		g.LockField = lf
+	}
 	for _, x := range strings.Split(f[1], ",") {
 		x = strings.TrimSpace(x)
 		if x != "" {
@@ -377,10 +398,15 @@ func parseCond(pkg, rest string) (*CondDecl, error) {
 		return nil, fmt.Errorf("bad cond clause")
 	}
 	hd := strings.Fields(f[0])
-	if len(hd) < 2 || hd[1] != "waits_on" {
+	if len(hd) < 2 || hd[len(hd)-1] != "waits_on" {
 		return nil, fmt.Errorf("bad cond clause head")
 	}
 	c := &CondDecl{Pkg: pkg, Name: hd[0]}
+	for i, w := range hd {
+		if w == "class" && i+1 < len(hd) {
+			c.Class = hd[i+1]
+		}
+	}
 	for _, x := range strings.Split(f[1], ",") {
 		x = strings.TrimSpace(x)
 		if x != "" {
